@@ -235,6 +235,8 @@ def correspond(ctx):
         if len(set(shas)) != len(shas):
             ctx.fail("stored-twice-after-reopen", f"after re-open the same bytes were stored again: {media}", {"fmt": fmt})
         ctx.count("reopen-continue")
+    dropped_relationship_slides(ctx, rng)
+    image_reached_only_through_another_part(ctx, rng)
     res = ctx.driver.run(lines)
     for meta, i, m in zip(metas, impl, res):
         ctx.traces += 1
@@ -249,6 +251,133 @@ def correspond(ctx):
     sc = [i for i, m in enumerate(metas) if m[0] == "scale"]
     if sc:
         ctx.sample({"line": lines[sc[0]], "impl": impl[sc[0]]})
+
+
+def distinct_images(rng, n, seen=()):
+    out, have = [], set(seen)
+    while len(out) < n:
+        b, fmt, _dk = make_image(rng)
+        if b not in have:
+            have.add(b); out.append((b, fmt))
+    return out
+
+
+def dropped_relationship_slides(ctx, rng):
+    """one slide holding ten and more relationships, some of which are dropped again in between (a hyperlink that is
+    cleared), pictures added before and after, with and without a save / re-open in between: every picture still shows
+    the bytes it was given, every blob is stored once"""
+    from pptx import Presentation
+
+    for trial in range(8 if ctx.quick else 120):
+        prs = Presentation()
+        slide = prs.slides.add_slide(prs.slide_layouts[6])
+        imgs = distinct_images(rng, rng.randint(10, 15))
+        links, pics, hist = [], [], []
+        todo = list(imgs)
+        n_links = rng.randint(1, 3)
+        drop_after = rng.randint(len(imgs) - 4, len(imgs) - 1)   # pictures placed when a link is cleared (10+ relationships by then)
+        for k in range(len(imgs)):
+            if len(links) < n_links and rng.random() < 0.5 or (k == 0 and trial % 2 == 0):
+                r = slide.shapes.add_textbox(0, 0, 99, 99).text_frame.paragraphs[0].add_run()
+                r.text = "link"; r.hyperlink.address = "http://example.com/%d" % len(links)
+                links.append(r); hist.append("link")
+            if k == drop_after and links:
+                r = links.pop(rng.randrange(len(links)))
+                r.hyperlink.address = None
+                hist.append("link-cleared"); ctx.count("dropped-relationship")
+                if rng.random() < 0.3:
+                    b = io.BytesIO(); prs.save(b)
+                    prs2 = Presentation(io.BytesIO(b.getvalue()))
+                    slide = prs2.slides[0]
+                    by_name = {p.name: p for p in slide.shapes if p.shape_type is not None and hasattr(p, "image")}
+                    pics = [(by_name[p.name], blob) for p, blob in pics]
+                    links = []
+                    prs = prs2; hist.append("re-open")
+            blob, fmt = todo.pop(0)
+            pic = slide.shapes.add_picture(io.BytesIO(blob), 0, 0)
+            pic.name = "pic-%d" % k
+            pics.append((pic, blob)); hist.append("picture")
+        case = {"kind": "dropped-relationship", "history": hist}
+        ctx.case(key=("dropped-relationship", tuple(hist))); ctx.count("dropped-relationship-histories")
+        bad = [p.name for p, blob in pics if p.image.blob != blob]
+        if bad:
+            ctx.fail("picture-image-blob", f"after history {hist} pictures {bad} no longer show the bytes they were added with "
+                     f"(relationship ids on the slide: {sorted(slide.part.rels)})", case)
+        b = io.BytesIO(); prs.save(b)
+        z = zipfile.ZipFile(io.BytesIO(b.getvalue()))
+        media = [z.read(n) for n in z.namelist() if n.startswith("ppt/media/image")]
+        if sorted(media) != sorted(blob for blob, _ in imgs):
+            ctx.fail("stored-media-differ", f"after history {hist} the saved media parts are not exactly the {len(imgs)} images added, once each ({len(media)} stored)", case)
+        re_ = Presentation(io.BytesIO(b.getvalue()))
+        shown = {p.name: p.image.blob for p in re_.slides[0].shapes if hasattr(p, "image")}
+        bad = [p.name for p, blob in pics if shown.get(p.name) != blob]
+        if bad:
+            ctx.fail("picture-image-blob", f"after history {hist}, save and re-open, pictures {bad} no longer show the bytes they were added with", case)
+
+
+def image_reached_only_through_another_part(ctx, rng):
+    """a start deck from another producer whose image parts are related only from a part the library has no class of
+    its own for (a picture fill in the theme, an icon of a VML drawing): new bytes get a name not in use, the bytes already
+    there are found and not stored twice, and the producer's image survives the save"""
+    import re as _re
+    from pptx import Presentation
+
+    for trial in range(6 if ctx.quick else 60):
+        prs = Presentation()
+        prs.slides.add_slide(prs.slide_layouts[6])
+        b0 = io.BytesIO(); prs.save(b0)
+        z = zipfile.ZipFile(io.BytesIO(b0.getvalue()))
+        theme = [n for n in z.namelist() if _re.fullmatch(r"ppt/theme/theme\d+\.xml", n)][0]
+        there = distinct_images(rng, rng.randint(1, 3))
+        names, rel_xml = {}, []
+        for k, (blob, fmt) in enumerate(there):
+            n = "ppt/media/image%d.%s" % (rng.choice([1, 1, 2, 3]) + 3 * k, EXT[fmt])
+            names[n] = blob
+            rel_xml.append(f'<Relationship Id="rId{k + 1}" Type="http://schemas.openxmlformats.org/officeDocument/2006/relationships/image" Target="../media/{n.split("/")[-1]}"/>')
+        out = io.BytesIO()
+        with zipfile.ZipFile(out, "w", zipfile.ZIP_DEFLATED) as zo:
+            for n in z.namelist():
+                data = z.read(n)
+                if n == "[Content_Types].xml":
+                    ct = data.decode()
+                    for ext, typ in (("png", "image/png"), ("jpg", "image/jpeg"), ("gif", "image/gif"), ("bmp", "image/bmp"), ("tiff", "image/tiff")):
+                        if 'Extension="%s"' % ext not in ct:
+                            ct = ct.replace("<Default ", f'<Default Extension="{ext}" ContentType="{typ}"/><Default ', 1)
+                    data = ct.encode()
+                zo.writestr(n, data)
+            for n, blob in names.items():
+                zo.writestr(n, blob)
+            d, f = theme.rsplit("/", 1)
+            zo.writestr(f"{d}/_rels/{f}.rels", '<?xml version="1.0" encoding="UTF-8" standalone="yes"?><Relationships xmlns="http://schemas.openxmlformats.org/package/2006/relationships">'
+                        + "".join(rel_xml) + "</Relationships>")
+        prs = Presentation(io.BytesIO(out.getvalue()))
+        slide = prs.slides[0]
+        new = distinct_images(rng, rng.randint(1, 3), seen=[b for b, _ in there])
+        seq = [(b, f, "new") for b, f in new] + [(b, f, "already-there") for b, f in there if rng.random() < 0.7]
+        rng.shuffle(seq)
+        case = {"kind": "image-through-theme", "there": sorted(names), "adds": [w for _, _, w in seq]}
+        ctx.case(key=("image-through-theme", tuple(sorted(names)), tuple(w for _, _, w in seq))); ctx.count("image-through-another-part-decks")
+        pics = []
+        for blob, fmt, what in seq:
+            pic = slide.shapes.add_picture(io.BytesIO(blob), 0, 0)
+            part = pic.part.related_part(pic._pic.blip_rId)
+            pics.append((pic, blob))
+            if what == "already-there" and names.get(str(part.partname)[1:]) != blob:
+                ctx.fail("stored-twice-after-reopen", f"bytes the deck already holds as {[n for n, b_ in names.items() if b_ == blob]} (related from the theme) were stored again as {part.partname}", case)
+            if what == "new" and str(part.partname)[1:] in names:
+                ctx.fail("image-name-taken", f"new image bytes were given the name {part.partname}, which the deck's own image (related from the theme) carries", case)
+        b = io.BytesIO(); prs.save(b)
+        z2 = zipfile.ZipFile(io.BytesIO(b.getvalue()))
+        for n, blob in names.items():
+            cnt = z2.namelist().count(n)
+            if cnt != 1 or z2.read(n) != blob:
+                ctx.fail("producer-image-lost", f"{n} (related from the theme) is stored {cnt} time(s) after save" + ("" if cnt != 1 else " with other bytes"), case)
+        if len(z2.namelist()) != len(set(z2.namelist())):
+            ctx.fail("duplicate-member", f"the saved package has a member name twice: {sorted(n for n in set(z2.namelist()) if z2.namelist().count(n) > 1)}", case)
+        re_ = Presentation(io.BytesIO(b.getvalue()))
+        shown = [p.image.blob for p in re_.slides[0].shapes if hasattr(p, "image")]
+        if shown != [blob for _, blob in pics]:
+            ctx.fail("picture-image-blob", "after save and re-open the pictures do not show the bytes they were added with", case)
 
 
 def check_zip(ctx, data, expected_blobs, blob_id):
